@@ -58,6 +58,13 @@ func (*StringCastingMangler) Unmangle(sf reflect.StructField, vs []FieldValueTup
 	if parsed.Type() != sf.Type && parsed.Type().ConvertibleTo(sf.Type) {
 		parsed = parsed.Convert(sf.Type)
 	}
+	// parse.String returns slices and maps as they are, not as pointers:
+	// box them for a field that is a pointer to a slice or map.
+	if sf.Type.Kind() == reflect.Ptr && parsed.Type() != sf.Type && parsed.Type().ConvertibleTo(sf.Type.Elem()) {
+		boxed := reflect.New(sf.Type.Elem())
+		boxed.Elem().Set(parsed.Convert(sf.Type.Elem()))
+		parsed = boxed
+	}
 	return parsed, nil
 }
 
